@@ -1,36 +1,1376 @@
-//! C16 - smoke
-use crate::ctx::*;
-use pvc_engine::Run;
-use serde_json::Value;
-use pvc_common::FFT64Ref;
-use poulpy_ckks::layouts::*;
-use poulpy_ckks::leveled::*;
-use poulpy_ckks::{CKKSInfos, CKKSMeta};
-use poulpy_core::EncryptionLayout;
+//! C16 - CKKS evaluator tracks values and metadata through any program (engine E2: explicit-state search).
+//!
+//! State: register file of 3 real `CKKSCiphertext`s + R6 shadow (complex slots, error bound).  Action: one public
+//! poulpy-ckks call.  Layered breadth-first search; a state is identified by its canonical abstract key
+//! (depth, sorted per-register (blank, value-defined, log_delta, log_budget, size, max_size, base2k)); the first
+//! state (in (parent index, action index) order - independent of thread timing) that reaches a key represents it.
+//! Every transition is checked against the invariants of the property on the real objects.
+
+use std::collections::{BTreeMap, HashMap, HashSet};
+use std::sync::{Arc, Mutex};
+
+use poulpy_ckks::CKKSInfos;
+use poulpy_ckks::CKKSMeta;
+use poulpy_ckks::encoding::Encoder;
+use poulpy_ckks::layouts::{CKKSCiphertext, CKKSPlaintextConversion, CKKSPlaintextVecRnx, CKKSPlaintextVecZnx};
+use poulpy_core::ScratchTakeCore;
 use poulpy_core::layouts::LWEInfos;
-use poulpy_hal::source::Source;
-use pvc_common::Bk;
+use poulpy_hal::api::ScratchAvailable;
+use poulpy_hal::layouts::{Module, Scratch};
+use pvc_common::{CoreAll, FFT64Avx, FFT64Ref, HalAll, NTT120Ref, host_has_avx};
+use pvc_engine::{Rec, Run, Tier, fnv, guarded};
+use serde::{Deserialize, Serialize};
+use serde_json::{Value, json};
 
-pub fn run(_run: &mut Run) {
-    let p = Params { name: "t".into(), n: 16, base2k: 19, k_max: 152, dsize: 1, hw: 8,
-        starts: vec![Start{log_delta:30,k:152}], pt_precs: vec![(30,10)], rot_keys: vec![1,3] };
-    let c = Ctx::<FFT64Ref, f64>::new(&p, 0);
-    println!("scratch {}", c.scratch_bytes);
-    let mut s = FFT64Ref::scratch(c.scratch_bytes);
-    let mut ct = c.blank(8, 0);
-    let enc_infos = EncryptionLayout::new_from_default_sigma(p.glwe_layout(152)).unwrap();
-    let mut xa = Source::new([1u8;32]); let mut xe = Source::new([2u8;32]);
-    c.module.ckks_encrypt_sk(&mut ct, &c.vec_znx[0][0], &c.sk, &enc_infos, &mut xa, &mut xe, FFT64Ref::borrow(&mut s)).unwrap();
-    println!("meta {:?} size {}", ct.meta(), ct.size());
-    let mut pt = CKKSPlaintextVecZnx::alloc(16u32.into(), 19u32.into(), CKKSMeta{log_delta:30, log_budget: 8});
-    c.module.ckks_decrypt(&mut pt, &ct, &c.sk, FFT64Ref::borrow(&mut s)).unwrap();
-    let mut r = CKKSPlaintextVecRnx::<f64>::alloc(16).unwrap();
-    r.decode_from_znx(&pt).unwrap();
-    let mut re = vec![0.0;8]; let mut im = vec![0.0;8];
-    c.enc.decode_reim(&r, &mut re, &mut im).unwrap();
-    for j in 0..8 { println!("{j}: got ({:.9},{:.9}) want ({:.9},{:.9})", re[j], im[j], c.vecs[0][j].0, c.vecs[0][j].1); }
+use crate::ctx::{Cb, CkksAll, Cplx, Ctx, Params, Real, Start};
+use crate::ops::*;
+
+// ------------------------------------------------------------------------------------------------------------
+// configuration
+
+#[derive(Clone, Debug, Serialize, Deserialize, PartialEq, Eq)]
+pub struct MenuCfg {
+    pub dst_sizes: Vec<Dst>,
+    /// destination sizes for ct-plaintext out-of-place forms
+    pub pt_dst_sizes: Vec<Dst>,
+    pub bits: Vec<u8>,
+    pub rots: Vec<i8>,
+    pub precs: Vec<u8>,
+    pub forms: Vec<PtForm>,
+    pub enc_starts: Vec<u8>,
+    pub enc_vecs: Vec<u8>,
+    pub consts: Vec<u8>,
+    pub pt_vecs: Vec<u8>,
+    /// wrong-radix plaintext operand: 0 = never, 1 = assign forms, 2 = assign and out-of-place forms
+    pub badbase: u8,
+    pub realloc_delta: Vec<i8>,
+    /// if non-empty: keep only the actions with these operation names (narrow menus for deep chains)
+    pub only_ops: Vec<String>,
 }
 
-pub fn replay(_run: &mut Run, _d: &Value) {
-    panic!("C16: not implemented yet");
+#[derive(Clone, Debug, Serialize, Deserialize, PartialEq, Eq)]
+pub struct SearchCfg {
+    pub name: String,
+    pub backend: String,
+    pub elem: String,
+    pub params: Params,
+    pub menu: MenuCfg,
+    /// starting points: each is a sequence of Encrypt actions applied to an all-blank register file
+    pub inits: Vec<Vec<Action>>,
+    pub depth: usize,
 }
+
+fn params_fft64() -> Params {
+    Params {
+        name: "fft64-n16-b19".into(),
+        n: 16,
+        base2k: 19,
+        k_max: 152,
+        dsize: 1,
+        hw: 8,
+        starts: vec![
+            Start { log_delta: 30, k: 152 },
+            Start { log_delta: 30, k: 100 },
+            Start { log_delta: 20, k: 57 },
+        ],
+        pt_precs: vec![(30, 10), (12, 5)],
+        rot_keys: vec![1, 2, 5],
+    }
+}
+
+fn params_ntt120(f128: bool) -> Params {
+    if f128 {
+        Params {
+            name: "ntt120-n16-b52-f128".into(),
+            n: 16,
+            base2k: 52,
+            k_max: 416,
+            dsize: 1,
+            hw: 8,
+            starts: vec![
+                Start { log_delta: 80, k: 416 },
+                Start { log_delta: 80, k: 300 },
+                Start { log_delta: 60, k: 208 },
+            ],
+            pt_precs: vec![(80, 10), (30, 5)],
+            rot_keys: vec![1, 2, 5],
+        }
+    } else {
+        Params {
+            name: "ntt120-n16-b52".into(),
+            n: 16,
+            base2k: 52,
+            k_max: 312,
+            dsize: 1,
+            hw: 8,
+            starts: vec![
+                Start { log_delta: 40, k: 312 },
+                Start { log_delta: 40, k: 200 },
+                Start { log_delta: 30, k: 104 },
+            ],
+            pt_precs: vec![(40, 10), (14, 5)],
+            rot_keys: vec![1, 2, 5],
+        }
+    }
+}
+
+fn inits() -> Vec<Vec<Action>> {
+    vec![
+        vec![
+            Action::Encrypt { dst: 0, start: 0, vec: 0 },
+            Action::Encrypt { dst: 1, start: 0, vec: 1 },
+            Action::Encrypt { dst: 2, start: 1, vec: 0 },
+        ],
+        vec![
+            Action::Encrypt { dst: 0, start: 1, vec: 1 },
+            Action::Encrypt { dst: 1, start: 2, vec: 0 },
+        ],
+    ]
+}
+
+fn menu_cfg(p: &Params, level: u8) -> MenuCfg {
+    let b = p.base2k as u8;
+    let big = p.k_max.div_ceil(p.base2k) as u8;
+    let m = p.m() as i8;
+    match level {
+        // quick
+        0 => MenuCfg {
+            dst_sizes: vec![Dst::Keep, Dst::Limbs((big / 3).max(1))],
+            pt_dst_sizes: vec![Dst::Keep],
+            bits: vec![1, b],
+            rots: vec![1, 3],
+            precs: vec![0],
+            forms: vec![PtForm::VecZnx, PtForm::VecRnx, PtForm::CstZnx, PtForm::CstRnx],
+            enc_starts: vec![0, 2],
+            enc_vecs: vec![0],
+            consts: vec![2, 3],
+            pt_vecs: vec![2],
+            badbase: 1,
+            realloc_delta: vec![-1, 1],
+            only_ops: vec![],
+        },
+        // narrow menu for long chains (budget exhaustion): multiplicative operations, the maintenance calls they
+        // need, and a few linear ones
+        2 => {
+            let mut m = menu_cfg(p, 0);
+            m.dst_sizes = vec![Dst::Keep];
+            m.bits = vec![b];
+            m.rots = vec![1];
+            m.consts = vec![2];
+            m.badbase = 0;
+            m.enc_starts = vec![];
+            m.only_ops = [
+                "mul_ct_into", "mul_ct_assign", "square_assign", "square_into", "mul_add_ct_into", "mul_sub_ct_into",
+                "compact_limbs", "rescale_assign", "align_assign", "mul_pt_vecznx_assign", "mul_pt_vecrnx_into",
+                "mul_pt_cstrnx_assign", "mul_pt_cstznx_into", "mul_add_pt_vecrnx_into", "add_ct_assign", "sub_ct_into",
+                "div_pow2_assign", "mul_pow2_assign", "rotate_assign", "conjugate_assign", "add_pt_cstrnx_assign",
+                "sub_pt_vecznx_assign", "neg_assign",
+            ]
+            .iter()
+            .map(|x| x.to_string())
+            .collect();
+            m
+        }
+        // thorough, full menu
+        _ => MenuCfg {
+            dst_sizes: vec![Dst::Keep, Dst::Limbs(1), Dst::Limbs((big / 3).max(2)), Dst::Limbs(big - 2), Dst::Limbs(big + 1)],
+            pt_dst_sizes: vec![Dst::Keep, Dst::Limbs((big / 3).max(2))],
+            bits: vec![1, b - 1, b, b + 1],
+            rots: (0..m).collect(),
+            precs: vec![0, 1],
+            forms: vec![PtForm::VecZnx, PtForm::VecRnx, PtForm::CstZnx, PtForm::CstRnx],
+            enc_starts: vec![0, 1, 2],
+            enc_vecs: vec![0, 1],
+            consts: vec![0, 1, 2, 3],
+            pt_vecs: vec![2],
+            badbase: 2,
+            realloc_delta: vec![-1, 1],
+            only_ops: vec![],
+        },
+    }
+}
+
+// ------------------------------------------------------------------------------------------------------------
+// action menu (fixed order: in-place unary, out-of-place unary, maintenance, plaintext, ciphertext-ciphertext, encrypt)
+
+pub fn menu<B: Cb, F: Real>(cx: &Ctx<B, F>, st: &State<F>, mc: &MenuCfg) -> Vec<Action> {
+    use Action::*;
+    let live: Vec<u8> = (0..NREG as u8).filter(|&i| !st.regs[i as usize].blank).collect();
+    let all: Vec<u8> = (0..NREG as u8).collect();
+    let b2k = cx.p.base2k;
+    let dnum = cx.p.dnum();
+    let mut v = vec![];
+    let rescale_ks = |r: u8| -> Vec<u8> {
+        let ld = st.regs[r as usize].ct.log_delta().min(255) as u8;
+        let mut ks = vec![1u8, b2k as u8];
+        if !ks.contains(&ld) && ld > 0 {
+            ks.push(ld);
+        }
+        ks
+    };
+    let ok_size = |s: &Dst| match s {
+        Dst::Keep => true,
+        Dst::Limbs(n) => (*n as usize) <= dnum && *n >= 1,
+    };
+    // in-place unary
+    for &d in &live {
+        v.push(NegAssign { dst: d });
+        for &bits in &mc.bits {
+            v.push(MulPow2Assign { dst: d, bits });
+            v.push(DivPow2Assign { dst: d, bits });
+        }
+        for k in rescale_ks(d) {
+            v.push(RescaleAssign { dst: d, k });
+        }
+        for &k in &mc.rots {
+            v.push(RotateAssign { dst: d, k });
+        }
+        v.push(ConjAssign { dst: d });
+        v.push(Compact { dst: d });
+        let sz = st.regs[d as usize].ct.size() as i64;
+        for &dl in &mc.realloc_delta {
+            let n = sz + dl as i64;
+            if n >= 1 && n as usize <= dnum {
+                v.push(Realloc { dst: d, size: n as u8 });
+            }
+        }
+        v.push(SquareAssign { dst: d });
+    }
+    for &a in &live {
+        for &b in &live {
+            if a < b {
+                v.push(Align { a, b });
+                v.push(Align { a: b, b: a });
+            }
+        }
+    }
+    // out-of-place unary
+    for &a in &live {
+        for &d in &all {
+            if d == a {
+                continue;
+            }
+            v.push(CompactCopy { dst: d, a });
+            for size in mc.dst_sizes.iter().copied().filter(ok_size) {
+                v.push(NegInto { dst: d, size, a });
+                for &bits in &mc.bits {
+                    v.push(MulPow2Into { dst: d, size, a, bits });
+                    v.push(DivPow2Into { dst: d, size, a, bits });
+                }
+                for k in rescale_ks(a) {
+                    v.push(RescaleInto { dst: d, size, a, k });
+                }
+                for &k in &mc.rots {
+                    v.push(RotateInto { dst: d, size, a, k });
+                }
+                v.push(ConjInto { dst: d, size, a });
+                v.push(SquareInto { dst: d, size, a });
+            }
+        }
+    }
+    // ciphertext-plaintext
+    let mut sels: Vec<PtSel> = vec![];
+    for &form in &mc.forms {
+        for &prec in &mc.precs {
+            let idxs: &Vec<u8> = if matches!(form, PtForm::VecZnx | PtForm::VecRnx) { &mc.pt_vecs } else { &mc.consts };
+            for &idx in idxs {
+                sels.push(PtSel {
+                    form,
+                    prec,
+                    idx,
+                    badbase: false,
+                });
+            }
+        }
+    }
+    let bad = PtSel {
+        form: PtForm::VecZnx,
+        prec: 0,
+        idx: 0,
+        badbase: true,
+    };
+    for &d in &live {
+        for op in [Arith::Add, Arith::Sub, Arith::Mul] {
+            for pt in &sels {
+                v.push(PtAssign { op, pt: *pt, dst: d });
+            }
+            if mc.badbase >= 1 {
+                v.push(PtAssign { op, pt: bad, dst: d });
+            }
+        }
+    }
+    for &a in &live {
+        for &d in &all {
+            if d == a {
+                continue;
+            }
+            for op in [Arith::Add, Arith::Sub, Arith::Mul] {
+                for size in mc.pt_dst_sizes.iter().copied().filter(ok_size) {
+                    for pt in &sels {
+                        v.push(PtInto { op, pt: *pt, dst: d, size, a });
+                    }
+                    if mc.badbase >= 2 {
+                        v.push(PtInto { op, pt: bad, dst: d, size, a });
+                    }
+                }
+            }
+            if !st.regs[d as usize].blank {
+                for op in [Arith::MulAdd, Arith::MulSub] {
+                    for pt in &sels {
+                        v.push(PtInto {
+                            op,
+                            pt: *pt,
+                            dst: d,
+                            size: Dst::Keep,
+                            a,
+                        });
+                    }
+                }
+            }
+        }
+    }
+    // ciphertext-ciphertext
+    for &d in &live {
+        for &a in &live {
+            if a != d {
+                for op in [Arith::Add, Arith::Sub, Arith::Mul] {
+                    v.push(CtAssign { op, dst: d, a });
+                }
+            }
+        }
+    }
+    for &d in &all {
+        for &a in &live {
+            for &b in &live {
+                if a == d || b == d {
+                    continue;
+                }
+                for op in [Arith::Add, Arith::Sub, Arith::Mul] {
+                    for size in mc.dst_sizes.iter().copied().filter(ok_size) {
+                        v.push(CtInto { op, dst: d, size, a, b });
+                    }
+                }
+                if !st.regs[d as usize].blank {
+                    for op in [Arith::MulAdd, Arith::MulSub] {
+                        v.push(CtInto {
+                            op,
+                            dst: d,
+                            size: Dst::Keep,
+                            a,
+                            b,
+                        });
+                    }
+                }
+            }
+        }
+    }
+    // (re-)encryption
+    for &d in &all {
+        for &start in &mc.enc_starts {
+            for &vec in &mc.enc_vecs {
+                v.push(Encrypt { dst: d, start, vec });
+            }
+        }
+    }
+    if !mc.only_ops.is_empty() {
+        v.retain(|a| mc.only_ops.contains(&a.name()));
+    }
+    v
+}
+
+// ------------------------------------------------------------------------------------------------------------
+// failure bookkeeping: a few descriptors per class, counters for the rest
+
+pub struct FailCtl {
+    seen: Mutex<HashMap<String, u64>>,
+    totals: Mutex<HashMap<String, u64>>,
+    per_class: u64,
+}
+
+/// per-case local tallies (merged into the shared tables once per outer case: no lock on the hot path)
+#[derive(Default)]
+pub struct Local {
+    pub class_counts: HashMap<String, u64>,
+    pub worst: BTreeMap<String, f64>,
+}
+
+impl FailCtl {
+    pub fn new(per_class: u64) -> Self {
+        FailCtl {
+            seen: Mutex::new(HashMap::new()),
+            totals: Mutex::new(HashMap::new()),
+            per_class,
+        }
+    }
+    /// `desc` is only built when the descriptor is going to be recorded
+    fn report(&self, rec: &mut Rec, local: &std::cell::RefCell<Local>, class: String, desc: impl FnOnce() -> Value) {
+        {
+            let mut l = local.borrow_mut();
+            let c = l.class_counts.entry(class.clone()).or_insert(0);
+            *c += 1;
+            if *c > self.per_class {
+                // this case alone already exceeded the quota of the class: tally only
+                rec.add("failures_not_recorded_same_class", 1);
+                return;
+            }
+        }
+        let mut g = self.seen.lock().unwrap();
+        let c = g.entry(class).or_insert(0);
+        *c += 1;
+        if *c <= self.per_class {
+            drop(g);
+            rec.fail(desc());
+        } else {
+            drop(g);
+            rec.add("failures_not_recorded_same_class", 1);
+        }
+    }
+    fn merge_local(&self, local: Local, worst: &Mutex<BTreeMap<String, f64>>) {
+        {
+            let mut g = self.totals.lock().unwrap();
+            for (k, v) in local.class_counts {
+                *g.entry(k).or_insert(0) += v;
+            }
+        }
+        let mut w = worst.lock().unwrap();
+        for (k, v) in local.worst {
+            let x = w.entry(k).or_insert(0.0);
+            if v > *x || v.is_nan() {
+                *x = v;
+            }
+        }
+    }
+    pub fn classes(&self) -> BTreeMap<String, u64> {
+        self.totals.lock().unwrap().iter().map(|(k, v)| (k.clone(), *v)).collect()
+    }
+}
+
+fn squash_digits(s: &str) -> String {
+    let mut out = String::new();
+    let mut last_hash = false;
+    for ch in s.chars() {
+        if ch.is_ascii_digit() {
+            if !last_hash {
+                out.push('#');
+            }
+            last_hash = true;
+        } else {
+            last_hash = false;
+            out.push(if ch == '\n' { ' ' } else { ch });
+        }
+    }
+    out.chars().take(140).collect()
+}
+
+// ------------------------------------------------------------------------------------------------------------
+// one transition with all invariants
+
+pub struct StepOut<F: Real> {
+    /// new contents of the changed registers when the call succeeded and every invariant held
+    pub changed: Option<Vec<(usize, Reg<F>)>>,
+    pub validated: bool,
+}
+
+pub struct StepEnv<'a> {
+    pub cfg: &'a SearchCfg,
+    pub init: usize,
+    pub seed: u64,
+    pub fc: &'a FailCtl,
+    /// per-case tallies: failure classes, largest observed ratio (decoded error / tolerance) per operation name
+    pub local: &'a std::cell::RefCell<Local>,
+}
+
+fn reg_desc<F: Real>(st: &State<F>, i: Option<u8>) -> Value {
+    match i {
+        Some(i) => st.regs[i as usize].describe(),
+        None => Value::Null,
+    }
+}
+
+fn operands(act: &Action) -> (Option<u8>, Option<u8>) {
+    use Action::*;
+    match *act {
+        CtInto { a, b, .. } => (Some(a), Some(b)),
+        CtAssign { a, .. } => (Some(a), None),
+        SquareInto { a, .. } | PtInto { a, .. } | NegInto { a, .. } | MulPow2Into { a, .. } | DivPow2Into { a, .. }
+        | RotateInto { a, .. } | ConjInto { a, .. } | RescaleInto { a, .. } | CompactCopy { a, .. } => (Some(a), None),
+        Align { a, b } => (Some(a), Some(b)),
+        _ => (None, None),
+    }
+}
+
+pub fn step<B: Cb, F: Real>(
+    cx: &Ctx<B, F>,
+    st: &State<F>,
+    act: &Action,
+    depth: usize,
+    scr: &mut Scr,
+    rec: &mut Rec,
+    env: &StepEnv,
+) -> StepOut<F>
+where
+    Module<B>: HalAll<B> + CoreAll<B> + CkksAll<B>,
+    Scratch<B>: ScratchTakeCore<B> + ScratchAvailable,
+{
+    let none = StepOut {
+        changed: None,
+        validated: false,
+    };
+    let pred = predict(cx, st, act);
+    let applied = apply(cx, st, act, &pred, depth, env.seed, scr);
+    let opname = act.name();
+    let (oa, ob) = operands(act);
+    let dsti = act_dst(act) as u8;
+    let b2k = cx.p.base2k;
+    let noncompact = sources(act).iter().any(|&i| {
+        let c = &st.regs[i as usize].ct;
+        c.effective_k().div_ceil(b2k) != c.size()
+    });
+    // classification fields for known-finding selectors
+    // log_delta of the two factors of a ciphertext-ciphertext product (None for every other operation)
+    let ld_equal: Option<bool> = {
+        let ldr = |i: u8| st.regs[i as usize].ct.log_delta();
+        match *act {
+            Action::CtInto { op: Arith::Mul | Arith::MulAdd | Arith::MulSub, a, b, .. } => Some(ldr(a) == ldr(b)),
+            Action::CtAssign { op: Arith::Mul, dst, a } => Some(ldr(dst) == ldr(a)),
+            Action::SquareInto { .. } | Action::SquareAssign { .. } => Some(true),
+            _ => None,
+        }
+    };
+    let (pt_badbase, pt_form, pt_ld, cst_limbs_exceed_dst) = match act {
+        Action::PtInto { pt, .. } | Action::PtAssign { pt, .. } => {
+            let ldp = cx.p.pt_precs[pt.prec as usize].0;
+            let dst_size = match act {
+                Action::PtInto { dst, size, .. } => dst_limbs(st, *dst, *size),
+                _ => st.regs[dsti as usize].ct.size(),
+            };
+            let is_cst = matches!(pt.form, PtForm::CstZnx | PtForm::CstRnx);
+            (pt.badbase, Some(pt.form), Some(ldp), is_cst && (pred.res_lb + ldp).div_ceil(b2k) > dst_size)
+        }
+        _ => (false, None, None, false),
+    };
+    let base = |kind: &str, extra: Value| -> Value {
+        let mut trace = st.trace.clone();
+        trace.push(*act);
+        let mut d = json!({
+            "op": opname, "backend": B::NAME, "elem": F::NAME, "kind": kind,
+            "case": {"cfg": env.cfg.name, "init": env.init, "trace": trace},
+            "inner": {"action": act, "depth": depth},
+            "a": reg_desc(st, oa), "b": reg_desc(st, ob), "d": reg_desc(st, Some(dsti)),
+            "any_src_noncompact": noncompact, "mul_operands_log_delta_equal": ld_equal,
+            "pt_badbase": pt_badbase, "pt_form": pt_form, "pt_log_delta": pt_ld, "const_limbs_exceed_dst": cst_limbs_exceed_dst,
+            "predicted_ok": pred.ok, "predicted_errors": pred.errs,
+        });
+        if let (Value::Object(m), Value::Object(e)) = (&mut d, extra) {
+            for (k, v) in e {
+                m.insert(k, v);
+            }
+        }
+        d
+    };
+    match &applied.res {
+        CallRes::Panic(msg) => {
+            let class = format!("{opname}|panic|{}|nc={noncompact}|bb={pt_badbase}|cl={cst_limbs_exceed_dst}", squash_digits(msg));
+            env.fc.report(rec, env.local, class, || base("panic", json!({"panic": msg})));
+            return none;
+        }
+        CallRes::Err { kind, text } => {
+            if pred.ok && pred.errs.contains(kind) {
+                // unspecified case: refusing with this error value is admissible
+                rec.add("error_paths_confirmed", 1);
+                rec.add(&format!("error_value/{kind:?}"), 1);
+            } else if pred.ok {
+                let class = format!("{opname}|unexpected_error|{kind:?}");
+                env.fc
+                    .report(rec, env.local, class, || base("unexpected_error", json!({"error_kind": kind, "error": text})));
+            } else if !pred.errs.contains(kind) {
+                let class = format!("{opname}|wrong_error|{kind:?}|{:?}", pred.errs);
+                env.fc.report(rec, env.local, class, || base("wrong_error", json!({"error_kind": kind, "error": text})));
+            } else {
+                rec.add("error_paths_confirmed", 1);
+                rec.add(&format!("error_value/{kind:?}"), 1);
+                rec.outcome(fnv(format!("{opname}/{kind:?}").as_bytes()));
+            }
+            return none;
+        }
+        CallRes::Ok => {
+            if !pred.ok {
+                let class = format!("{opname}|missing_error|{:?}", pred.errs);
+                let res = &applied.changed[0].1;
+                env.fc.report(rec, env.local, class, || base("missing_error", json!({"res_log_delta": res.log_delta(), "res_log_budget": res.log_budget(), "res_size": res.size()})));
+                return none;
+            }
+        }
+    }
+    // ---- Ok: metadata invariants on every changed register
+    for (i, ct) in &applied.changed {
+        let (ld, lb, mk) = (ct.log_delta(), ct.log_budget(), ct.max_k().as_usize());
+        let resd = json!({"res_reg": i, "res_log_delta": ld, "res_log_budget": lb, "res_size": ct.size(), "res_max_k": mk});
+        if ld > (1usize << 40) || lb > (1usize << 40) {
+            let which = if ld > (1usize << 40) { "log_delta" } else { "log_budget" };
+            env.fc
+                .report(rec, env.local, format!("{opname}|meta_wrapped|{which}"), || base("meta_wrapped", json!({"which": which, "res": resd})));
+            return none;
+        }
+        if ld + lb > mk {
+            env.fc.report(rec, env.local, format!("{opname}|meta_exceeds_storage"), || base("meta_exceeds_storage", json!({"which": "log_delta+log_budget", "excess_bits": ld + lb - mk, "res": resd})));
+            return none;
+        }
+        if let Some((_, pld, plb)) = pred.meta.iter().find(|x| x.0 == *i) {
+            if *pld != ld || *plb != lb {
+                let which = if *pld != ld { "log_delta" } else { "log_budget" };
+                env.fc.report(rec, env.local, format!("{opname}|meta_mismatch|{which}"), || base("meta_mismatch", json!({"which": which, "documented": [pld, plb], "res": resd})));
+                return none;
+            }
+        }
+        if matches!(act, Action::Compact { .. } | Action::CompactCopy { .. }) && ct.size() != (ld + lb).div_ceil(b2k).max(0) {
+            env.fc.report(rec, env.local, format!("{opname}|meta_mismatch|size"), || base("meta_mismatch", json!({"which": "size", "documented": (ld + lb).div_ceil(b2k), "res": resd})));
+            return none;
+        }
+        if let Action::Realloc { size, .. } = act {
+            if ct.size() != *size as usize {
+                env.fc
+                    .report(rec, env.local, format!("{opname}|meta_mismatch|size"), || base("meta_mismatch", json!({"which": "size", "res": resd})));
+                return none;
+            }
+        }
+    }
+    // ---- Ok: the metadata describes the data
+    let sh = shadow(cx, st, act, &applied.changed);
+    let mut out: Vec<(usize, Reg<F>)> = vec![];
+    let mut validated = false;
+    for ((i, ct), (s, e)) in applied.changed.into_iter().zip(sh) {
+        let lb = ct.log_budget();
+        let mut s = s;
+        let mut mg = 0.0f64;
+        if let Some(v) = &s {
+            mg = mag(v);
+            // representable range of the ciphertext: |coefficients| <= |slots| < 2^(log_budget-1); keep 1 bit of margin
+            if !(mg.is_finite() && e.is_finite()) || mg + e > ((lb as f64) - 2.0).exp2() {
+                s = None;
+                rec.add("value_left_representable_range", 1);
+            }
+        }
+        if let Some(want) = &s {
+            match observe(cx, &ct, mg.max(1e-300).log2(), scr) {
+                Observed::Failed { stage, text, panic } => {
+                    let kind = if panic { "panic" } else { "decrypt_failed" };
+                    env.fc.report(rec, env.local, format!("{opname}|{kind}|{stage}|{}", squash_digits(&text)), || base(kind, json!({"stage": stage, "panic": text, "res": {"log_delta": ct.log_delta(), "log_budget": lb, "size": ct.size()}})));
+                    return none;
+                }
+                Observed::Slots(got, ld_pt) => {
+                    let mut worst = 0.0f64;
+                    let mut at = 0usize;
+                    for (j, (g, w)) in got.iter().zip(want.iter()).enumerate() {
+                        let d = ((g.0 - w.0).to64().powi(2) + (g.1 - w.1).to64().powi(2)).sqrt();
+                        if !(d <= worst) {
+                            worst = d;
+                            at = j;
+                        }
+                    }
+                    let em = ErrModel::of(cx);
+                    let tol = e + SAFETY * em.n * (-(ld_pt as f64)).exp2() + mg * ((8 - F::MANT) as f64).exp2();
+                    let ratio = worst / tol;
+                    {
+                        let mut l = env.local.borrow_mut();
+                        let x = l.worst.entry(opname.clone()).or_insert(0.0);
+                        if ratio > *x || ratio.is_nan() {
+                            *x = ratio;
+                            if std::env::var("C16_TRACE_WORST").is_ok() && ratio > 0.3 && ratio < 2.0 {
+                                eprintln!("worst {ratio:.3} {opname} err=2^{:.2} tol=2^{:.2} e=2^{:.2} trace={:?} + {:?}", worst.log2(), tol.log2(), e.log2(), &st.trace, act);
+                            }
+                        }
+                    }
+                    if !(worst <= tol) {
+                        // classify: is the decoded vector the expected one times a power of two?
+                        let mut scale_bits: Option<i32> = None;
+                        for sb in (-24..=24).filter(|x| *x != 0) {
+                            let f = (sb as f64).exp2();
+                            let ok = got.iter().zip(want.iter()).all(|(g, w)| {
+                                let d = ((g.0.to64() - w.0.to64() * f).powi(2) + (g.1.to64() - w.1.to64() * f).powi(2)).sqrt();
+                                d <= tol * f.max(1.0) * 4.0
+                            });
+                            if ok {
+                                scale_bits = Some(sb);
+                                break;
+                            }
+                        }
+                        let class = format!("{opname}|wrong_value|scale={scale_bits:?}|nc={noncompact}|ldeq={ld_equal:?}");
+                        env.fc.report(rec, env.local, class, || base(
+                                "wrong_value",
+                                json!({"log2_error": worst.log2(), "log2_tolerance": tol.log2(), "slot": at,
+                                    "got": [got[at].0.to64(), got[at].1.to64()], "want": [want[at].0.to64(), want[at].1.to64()],
+                                    "decoded_is_expected_times_2_pow": scale_bits,
+                                    "res": {"log_delta": ct.log_delta(), "log_budget": lb, "size": ct.size(), "max_k": ct.max_k().as_usize()}}),
+                            ));
+                        return none;
+                    }
+                    validated = true;
+                }
+            }
+        }
+        out.push((
+            i,
+            Reg {
+                ct,
+                sh: s,
+                err: e,
+                blank: false,
+            },
+        ));
+    }
+    {
+        let mut v: Vec<i64> = vec![fnv(opname.as_bytes()) as i64];
+        for (_, r) in &out {
+            let k = r.key();
+            v.extend_from_slice(&[k.valid as i64, k.ld as i64, k.lb as i64, k.size as i64]);
+        }
+        rec.outcome(pvc_engine::hash_i64s(&v));
+    }
+    StepOut {
+        changed: Some(out),
+        validated,
+    }
+}
+
+// ------------------------------------------------------------------------------------------------------------
+// the search
+
+fn blank_state<B: Cb, F: Real>(cx: &Ctx<B, F>) -> State<F>
+where
+    Module<B>: HalAll<B> + CoreAll<B> + CkksAll<B>,
+    Scratch<B>: ScratchTakeCore<B> + ScratchAvailable,
+{
+    let mk = || {
+        Arc::new(Reg {
+            ct: cx.blank(cx.p.k_max.div_ceil(cx.p.base2k), 0),
+            sh: None,
+            err: 0.0,
+            blank: true,
+        })
+    };
+    State {
+        regs: [mk(), mk(), mk()],
+        trace: vec![],
+    }
+}
+
+fn succ_state<F: Real>(st: &State<F>, act: &Action, changed: Vec<(usize, Reg<F>)>) -> State<F> {
+    let mut regs = st.regs.clone();
+    for (i, r) in changed {
+        regs[i] = Arc::new(r);
+    }
+    let mut trace = st.trace.clone();
+    trace.push(*act);
+    State { regs, trace }
+}
+
+type Key = [RegKey; NREG];
+
+fn succ_key<F: Real>(st: &State<F>, changed: &[(usize, Reg<F>)]) -> Key {
+    let mut k: Vec<RegKey> = (0..NREG)
+        .map(|i| match changed.iter().find(|c| c.0 == i) {
+            Some((_, r)) => r.key(),
+            None => st.regs[i].key(),
+        })
+        .collect();
+    k.sort();
+    [k[0], k[1], k[2]]
+}
+
+#[derive(Serialize)]
+struct Case {
+    cfg: String,
+    init: usize,
+    idx: usize,
+    trace: Vec<Action>,
+}
+
+struct Succ<F: Real> {
+    key: Key,
+    act: Action,
+    changed: Vec<(usize, Reg<F>)>,
+}
+
+#[derive(Clone, Debug, Default, PartialEq, Serialize)]
+pub struct LayerStat {
+    pub depth: usize,
+    pub frontier: usize,
+    pub transitions: u64,
+    pub new_states: usize,
+    pub key_hash: u64,
+}
+
+pub struct SearchOut {
+    pub layers: Vec<LayerStat>,
+    pub states: u64,
+    pub transitions: u64,
+    pub validated: u64,
+    pub completed: bool,
+}
+
+fn hash_key(k: &Key) -> u64 {
+    let mut v: Vec<i64> = Vec::with_capacity(7 * NREG);
+    for r in k {
+        v.extend_from_slice(&[r.blank as i64, r.valid as i64, r.ld as i64, r.lb as i64, r.size as i64, r.max_size as i64, r.base2k as i64]);
+    }
+    pvc_engine::hash_i64s(&v)
+}
+
+/// order-independent digest of a set of keys
+fn hash_keys(keys: &[Key]) -> u64 {
+    let mut h = 0u64;
+    for k in keys {
+        h = h.wrapping_add(hash_key(k).wrapping_mul(0x9E3779B97F4A7C15) | 1);
+    }
+    h
+}
+
+pub fn search<B: Cb, F: Real>(run: &mut Run, cfg: &SearchCfg, tag: &str, worst: &Mutex<BTreeMap<String, f64>>) -> SearchOut
+where
+    Module<B>: HalAll<B> + CoreAll<B> + CkksAll<B>,
+    Scratch<B>: ScratchTakeCore<B> + ScratchAvailable,
+{
+    let cx = Ctx::<B, F>::new(&cfg.params, run.seed);
+    let seed = run.seed;
+    let mut out = SearchOut {
+        layers: vec![],
+        states: 0,
+        transitions: 0,
+        validated: 0,
+        completed: true,
+    };
+    let fc = FailCtl::new(3);
+    // ---- starting points: Encrypt prefixes, themselves checked transitions
+    let mut frontier: Vec<(usize, State<F>)> = vec![];
+    {
+        let fam = format!("search/{}{}/init", cfg.name, tag);
+        if !run.wants(&fam) {
+            out.completed = false;
+            return out;
+        }
+        let collected: Mutex<Vec<(usize, State<F>)>> = Mutex::new(vec![]);
+        let cases: Vec<Case> = cfg
+            .inits
+            .iter()
+            .enumerate()
+            .map(|(i, t)| Case {
+                cfg: cfg.name.clone(),
+                init: i,
+                idx: i,
+                trace: t.clone(),
+            })
+            .collect();
+        run.family(&fam, "each starting point = prefix of Encrypt actions on blank registers, every one a checked transition", cases, |c, rec| {
+            let mut st = blank_state(&cx);
+            let mut scr = Scr::new(cx.scratch_bytes);
+            let local = std::cell::RefCell::new(Local::default());
+            let env = StepEnv {
+                cfg,
+                init: c.init,
+                seed,
+                fc: &fc,
+                local: &local,
+            };
+            let mut ok = true;
+            for (d, a) in c.trace.iter().enumerate() {
+                rec.evals(1);
+                let so = step(&cx, &st, a, d, &mut scr, rec, &env);
+                if so.validated {
+                    rec.add("validated", 1);
+                }
+                match so.changed {
+                    Some(ch) => st = succ_state(&st, a, ch),
+                    None => {
+                        ok = false;
+                        break;
+                    }
+                }
+            }
+            fc.merge_local(local.into_inner(), worst);
+            if ok {
+                collected.lock().unwrap().push((c.init, st));
+            }
+        });
+        let mut v = collected.into_inner().unwrap();
+        v.sort_by_key(|x| x.0);
+        frontier = v;
+        let fr = run.families.last().unwrap();
+        out.transitions += fr.rec.evaluations;
+        out.validated += fr.rec.extra.get("validated").copied().unwrap_or(0);
+    }
+    let base_depth: Vec<usize> = cfg.inits.iter().map(|t| t.len()).collect();
+    let mut seen: HashSet<(usize, Key)> = HashSet::new();
+    for (_, st) in &frontier {
+        seen.insert((0, succ_key(st, &[])));
+    }
+    out.states += frontier.len() as u64;
+    for d in 0..cfg.depth {
+        let last = d + 1 == cfg.depth;
+        let fam = format!("search/{}{}/depth{}", cfg.name, tag, d + 1);
+        let n = frontier.len();
+        let slots: Vec<Mutex<Option<Vec<Succ<F>>>>> = (0..n).map(|_| Mutex::new(None)).collect();
+        // last layer: only the set of abstract keys is needed (no representative is kept), collected in a sharded
+        // set so that nothing per-transition stays in memory; set content is independent of thread timing
+        let last_sets: Vec<Mutex<HashSet<Key>>> = (0..256).map(|_| Mutex::new(HashSet::new())).collect();
+        let cases: Vec<Case> = frontier
+            .iter()
+            .enumerate()
+            .map(|(i, (init, st))| Case {
+                cfg: cfg.name.clone(),
+                init: *init,
+                idx: i,
+                trace: st.trace.clone(),
+            })
+            .collect();
+        let frontier_ref = &frontier;
+        run.family(
+            &fam,
+            "outer case = one frontier state (given by its trace); inner = every action of the menu; evaluations = real library calls, each checked against the C16 invariants; distinct = abstract successor keys",
+            cases,
+            |c, rec| {
+                let (init, st) = &frontier_ref[c.idx];
+                let mut scr = Scr::new(cx.scratch_bytes);
+                let local = std::cell::RefCell::new(Local::default());
+                let env = StepEnv {
+                    cfg,
+                    init: *init,
+                    seed,
+                    fc: &fc,
+                    local: &local,
+                };
+                let acts = menu(&cx, st, &cfg.menu);
+                let mut succ = Vec::new();
+                // successors of one state are de-duplicated here already (first action in menu order wins)
+                let mut local_keys: HashSet<Key> = HashSet::new();
+                let depth_abs = base_depth[*init] + d;
+                for a in &acts {
+                    rec.evals(1);
+                    let so = step(&cx, st, a, depth_abs, &mut scr, rec, &env);
+                    if so.validated {
+                        rec.add("validated", 1);
+                    }
+                    if let Some(ch) = so.changed {
+                        let key = succ_key(st, &ch);
+                        if local_keys.insert(key) {
+                            rec.distinct(hash_key(&key));
+                            if last {
+                                last_sets[(hash_key(&key) >> 20) as usize % last_sets.len()].lock().unwrap().insert(key);
+                            } else {
+                                succ.push(Succ {
+                                    key,
+                                    act: *a,
+                                    changed: ch,
+                                });
+                            }
+                        }
+                    } else {
+                        rec.add("no_successor(err_or_violation)", 1);
+                    }
+                }
+                rec.sample(|| json!({"trace": c.trace, "menu_size": acts.len()}));
+                fc.merge_local(local.into_inner(), worst);
+                *slots[c.idx].lock().unwrap() = Some(succ);
+            },
+        );
+        if !run.wants(&fam) {
+            out.completed = false;
+            return out;
+        }
+        let fr = run.families.last().unwrap();
+        let trans = fr.rec.evaluations;
+        out.transitions += trans;
+        out.validated += fr.rec.extra.get("validated").copied().unwrap_or(0);
+        let capped = fr.capped || fr.outer_done != fr.outer_cases;
+        // deterministic merge: parents in index order, actions in menu order
+        let mut next: Vec<(usize, State<F>)> = vec![];
+        let mut new_keys: Vec<Key> = vec![];
+        for set in last_sets {
+            new_keys.extend(set.into_inner().unwrap());
+        }
+        for (i, slot) in slots.into_iter().enumerate() {
+            let Some(list) = slot.into_inner().unwrap() else {
+                continue;
+            };
+            for s in list {
+                if seen.insert((d + 1, s.key)) {
+                    new_keys.push(s.key);
+                    next.push((frontier[i].0, succ_state(&frontier[i].1, &s.act, s.changed)));
+                }
+            }
+        }
+        out.states += new_keys.len() as u64;
+        out.layers.push(LayerStat {
+            depth: d + 1,
+            frontier: n,
+            transitions: trans,
+            new_states: new_keys.len(),
+            key_hash: hash_keys(&new_keys),
+        });
+        eprintln!(
+            "[C16]   {}{} depth {}: frontier {} transitions {} new states {}",
+            cfg.name,
+            tag,
+            d + 1,
+            n,
+            trans,
+            new_keys.len()
+        );
+        if capped {
+            out.completed = false;
+            break;
+        }
+        frontier = next;
+    }
+    let classes = fc.classes();
+    if !classes.is_empty() {
+        run.note(&format!("failure_classes/{}{}", cfg.name, tag), json!(classes));
+    }
+    out
+}
+
+// ------------------------------------------------------------------------------------------------------------
+// encode -> decode identity (E1), with an independent slot oracle (evaluation of the polynomial at the roots)
+
+#[derive(Clone, Debug, Serialize, Deserialize)]
+pub struct EncCase {
+    pub elem: String,
+    pub m: usize,
+    pub base2k: usize,
+    pub log_delta: usize,
+    pub log_budget: usize,
+    /// 0: unit real at slot j, 1: unit imaginary at slot j, 2: all ones, 3: alternating +-1, 4: unit circle,
+    /// 5: constant near the magnitude limit, 6: alternating extremes, 7: single extreme at slot j (others 0)
+    pub pattern: usize,
+    pub j: usize,
+}
+
+fn enc_vector<F: Real>(c: &EncCase) -> Vec<Cplx<F>> {
+    let m = c.m;
+    // magnitude limit: the semantic width is log_delta + log_budget bits including the sign
+    let lim = F::f(((c.log_budget - 1) as f64).exp2()) * F::f(0.999);
+    let z = (F::zero(), F::zero());
+    match c.pattern {
+        0 => (0..m).map(|i| if i == c.j { (F::one(), F::zero()) } else { z }).collect(),
+        1 => (0..m).map(|i| if i == c.j { (F::zero(), F::one()) } else { z }).collect(),
+        2 => vec![(F::one(), F::zero()); m],
+        3 => (0..m).map(|i| if i % 2 == 0 { (F::one(), F::zero()) } else { (-F::one(), F::zero()) }).collect(),
+        4 => crate::ctx::unit_vector::<F>(m, 1.0, 0.25),
+        5 => vec![(lim, F::zero()); m],
+        6 => (0..m)
+            .map(|i| {
+                let s = lim / F::f(m as f64).sqrt() / F::f(2.0);
+                if i % 2 == 0 { (s, -s) } else { (-s, s) }
+            })
+            .collect(),
+        _ => (0..m).map(|i| if i == c.j { (lim * F::f(0.7), lim * F::f(0.7)) } else { z }).collect(),
+    }
+}
+
+/// slot j of a real polynomial p of degree n = 2m: p(w^(5^j)), w = exp(i*pi/n)   (definition; O(n) per slot)
+fn eval_slot<F: Real>(p: &[F], j: usize) -> Cplx<F> {
+    let n = p.len();
+    let two_n = 2 * n;
+    let mut e = 1usize;
+    for _ in 0..j {
+        e = (e * 5) % two_n;
+    }
+    let mut acc = (F::zero(), F::zero());
+    for (k, c) in p.iter().enumerate() {
+        let t = F::PI() * F::f(((e * k) % two_n) as f64) / F::f(n as f64);
+        acc = (acc.0 + *c * t.cos(), acc.1 + *c * t.sin());
+    }
+    acc
+}
+
+fn enc_exec<F: Real>(c: &EncCase, rec: &mut Rec) {
+    let m = c.m;
+    let n = 2 * m;
+    let v = enc_vector::<F>(c);
+    let mg = mag(&v).max(1.0);
+    let re: Vec<F> = v.iter().map(|x| x.0).collect();
+    let im: Vec<F> = v.iter().map(|x| x.1).collect();
+    let fail = |rec: &mut Rec, kind: &str, stage: &str, extra: Value| {
+        rec.fail(json!({"op": "encode_decode", "backend": "none", "elem": F::NAME, "kind": kind, "stage": stage, "case": c, "inner": extra}));
+    };
+    let eps = ((4 - F::MANT) as f64).exp2() * mg * (n as f64);
+    let enc = match guarded(|| Encoder::<F>::new(m)) {
+        Ok(Ok(e)) => e,
+        Ok(Err(e)) => return fail(rec, "unexpected_error", "Encoder::new", json!({"error": e.to_string()})),
+        Err(p) => return fail(rec, "panic", "Encoder::new", json!({"panic": p})),
+    };
+    let mut pt = CKKSPlaintextVecRnx::<F>::alloc(n).unwrap();
+    for x in pt.data_mut() {
+        *x = F::nan();
+    }
+    match guarded(|| enc.encode_reim(&mut pt, &re, &im)) {
+        Ok(Ok(())) => {}
+        Ok(Err(e)) => return fail(rec, "unexpected_error", "encode_reim", json!({"error": e.to_string()})),
+        Err(p) => return fail(rec, "panic", "encode_reim", json!({"panic": p})),
+    }
+    rec.evals(1);
+    // (a) the encoded polynomial takes the slot values at the roots (definition)
+    for j in 0..m {
+        let s = eval_slot(pt.data(), j);
+        let d = ((s.0 - v[j].0).to64().powi(2) + (s.1 - v[j].1).to64().powi(2)).sqrt();
+        if !(d <= eps) {
+            return fail(rec, "wrong_value", "encode_reim vs evaluation at roots", json!({"slot": j, "log2_error": d.log2(), "log2_tolerance": eps.log2()}));
+        }
+    }
+    // (b) decode(encode(v)) = v within the element type's precision
+    let mut ro = vec![F::nan(); m];
+    let mut io = vec![F::nan(); m];
+    match guarded(|| enc.decode_reim(&pt, &mut ro, &mut io)) {
+        Ok(Ok(())) => {}
+        Ok(Err(e)) => return fail(rec, "unexpected_error", "decode_reim", json!({"error": e.to_string()})),
+        Err(p) => return fail(rec, "panic", "decode_reim", json!({"panic": p})),
+    }
+    rec.evals(1);
+    for j in 0..m {
+        let d = ((ro[j] - v[j].0).to64().powi(2) + (io[j] - v[j].1).to64().powi(2)).sqrt();
+        if !(d <= eps) {
+            return fail(rec, "wrong_value", "decode_reim(encode_reim)", json!({"slot": j, "log2_error": d.log2(), "log2_tolerance": eps.log2()}));
+        }
+    }
+    // (c) through the quantised form
+    let meta = CKKSMeta {
+        log_delta: c.log_delta,
+        log_budget: c.log_budget,
+    };
+    let mut z = CKKSPlaintextVecZnx::alloc((n as u32).into(), (c.base2k as u32).into(), meta);
+    pvc_engine::rng::garbage(&mut z.data_mut().data, 0);
+    match guarded(|| pt.to_znx(&mut z)) {
+        Ok(Ok(())) => {}
+        Ok(Err(e)) => return fail(rec, "unexpected_error", "to_znx", json!({"error": e.to_string()})),
+        Err(p) => return fail(rec, "panic", "to_znx", json!({"panic": p})),
+    }
+    let mut back = CKKSPlaintextVecRnx::<F>::alloc(n).unwrap();
+    match guarded(|| back.decode_from_znx(&z)) {
+        Ok(Ok(())) => {}
+        Ok(Err(e)) => return fail(rec, "unexpected_error", "decode_from_znx", json!({"error": e.to_string()})),
+        Err(p) => return fail(rec, "panic", "decode_from_znx", json!({"panic": p})),
+    }
+    enc.decode_reim(&back, &mut ro, &mut io).unwrap();
+    rec.evals(1);
+    let tol = (n as f64) * 0.5 * (-(c.log_delta as f64)).exp2() * 1.01 + eps;
+    let mut worst = 0.0f64;
+    for j in 0..m {
+        let d = ((ro[j] - v[j].0).to64().powi(2) + (io[j] - v[j].1).to64().powi(2)).sqrt();
+        if !(d <= tol) {
+            return fail(rec, "wrong_value", "decode(quantise(encode))", json!({"slot": j, "log2_error": d.log2(), "log2_tolerance": tol.log2()}));
+        }
+        worst = worst.max(d);
+    }
+    rec.distinct(fnv(format!("{}/{}/{}/{}", c.m, c.log_delta, c.log_budget, c.pattern).as_bytes()));
+    rec.outcome(fnv(&worst.to_bits().to_le_bytes()));
+}
+
+fn enc_cases(tier: Tier) -> Vec<EncCase> {
+    let mut v = vec![];
+    let ms: Vec<usize> = if tier.is_thorough() { vec![1, 2, 4, 8, 16, 64] } else { vec![4, 8] };
+    for elem in ["f64", "f128"] {
+        for &m in &ms {
+            let precs: Vec<(usize, usize, usize)> = if elem == "f64" {
+                vec![(19, 30, 10), (19, 20, 8), (19, 40, 30), (52, 40, 12), (52, 50, 60), (17, 12, 5)]
+            } else {
+                vec![(52, 80, 30), (52, 40, 12), (19, 30, 10), (52, 100, 20), (52, 60, 60)]
+            };
+            for (b, ld, lb) in precs {
+                for pattern in 0..8 {
+                    let js: Vec<usize> = if matches!(pattern, 0 | 1 | 7) { (0..m).collect() } else { vec![0] };
+                    for j in js {
+                        v.push(EncCase {
+                            elem: elem.into(),
+                            m,
+                            base2k: b,
+                            log_delta: ld,
+                            log_budget: lb,
+                            pattern,
+                            j,
+                        });
+                    }
+                }
+            }
+        }
+    }
+    v
+}
+
+fn enc_dispatch(c: &EncCase, rec: &mut Rec) {
+    if c.elem == "f64" { enc_exec::<f64>(c, rec) } else { enc_exec::<f128::f128>(c, rec) }
+}
+
+// ------------------------------------------------------------------------------------------------------------
+// entry points
+
+fn configs(tier: Tier) -> Vec<SearchCfg> {
+    let mut v = vec![];
+    let pf = params_fft64();
+    match tier {
+        Tier::Quick => {
+            v.push(SearchCfg {
+                name: "fft64/f64/quick".into(),
+                backend: "fft64-ref".into(),
+                elem: "f64".into(),
+                menu: menu_cfg(&pf, 0),
+                params: pf,
+                inits: inits(),
+                depth: 3,
+            });
+        }
+        Tier::Thorough => {
+            let pn = params_ntt120(false);
+            let pq = params_ntt120(true);
+            let mut add = |name: &str, backend: &str, elem: &str, p: &Params, level: u8, depth: usize| {
+                v.push(SearchCfg {
+                    name: name.into(),
+                    backend: backend.into(),
+                    elem: elem.into(),
+                    menu: menu_cfg(p, level),
+                    params: p.clone(),
+                    inits: inits(),
+                    depth,
+                });
+            };
+            // full menu (all destination sizes, all shift amounts, every rotation index, both plaintext precisions)
+            add("fft64/f64/full", "fft64-ref", "f64", &pf, 1, 3);
+            add("ntt120/f64/full", "ntt120-ref", "f64", &pn, 1, 3);
+            // reduced menu, deeper
+            add("fft64/f64/deep", "fft64-ref", "f64", &pf, 0, 4);
+            add("ntt120/f64/deep", "ntt120-ref", "f64", &pn, 0, 4);
+            add("ntt120/f128/deep", "ntt120-ref", "f128", &pq, 0, 4);
+            // narrow menu, long chains: down to exhaustion of the budget of every starting point
+            add("fft64/f64/chain", "fft64-ref", "f64", &pf, 2, 7);
+            add("ntt120/f128/chain", "ntt120-ref", "f128", &pq, 2, 6);
+            if host_has_avx() {
+                add("fft64avx/f64/deep", "fft64-avx", "f64", &pf, 0, 3);
+            }
+        }
+    }
+    v
+}
+
+fn dispatch_search(run: &mut Run, cfg: &SearchCfg, tag: &str, worst: &Mutex<BTreeMap<String, f64>>) -> SearchOut {
+    match (cfg.backend.as_str(), cfg.elem.as_str()) {
+        ("fft64-ref", "f64") => search::<FFT64Ref, f64>(run, cfg, tag, worst),
+        ("fft64-ref", "f128") => search::<FFT64Ref, f128::f128>(run, cfg, tag, worst),
+        ("ntt120-ref", "f64") => search::<NTT120Ref, f64>(run, cfg, tag, worst),
+        ("ntt120-ref", "f128") => search::<NTT120Ref, f128::f128>(run, cfg, tag, worst),
+        ("fft64-avx", "f64") => search::<FFT64Avx, f64>(run, cfg, tag, worst),
+        (b, e) => panic!("unsupported backend/element combination {b}/{e}"),
+    }
+}
+
+pub fn run(run: &mut Run) {
+    run.assume("all ciphertexts of one search share n=16 and one base2k (mixed radices are exercised only through a vector plaintext operand of radix base2k-1); rank 1; secret ternary with hamming weight n/2");
+    run.assume("a register is used as an operand only if it holds a ciphertext produced by a successful call; after Err/panic nothing is demanded of the destination and no successor state is generated");
+    run.assume("values are compared only while |slot| + error < 2^(log_budget-2) (representable range of the ciphertext); beyond that the register keeps being used for the metadata / no-panic / error-value invariants only");
+    run.assume("constants for add/sub_pt_const_znx are encoded with to_znx_at_k at k = destination log_budget + log_delta, as the API documentation requires; constants for mul use to_znx");
+    run.assume("destination limb counts stay <= dnum of the evaluation keys; rotation index k is looked up in the key map by k itself (keys supplied for k in {1,2,5})");
+    run.assume("tolerance = accumulated worst-case bound: fresh encryption N*(0.5+20)*2^-ld, each result truncation N*(N+1)*2^(lb-max_k), each key switch N^2*dnum*2^(b-1)*20*2^(lb-k_key), products |a|E_b+|b|E_a+E_aE_b, plaintext quantisation N/2*2^-ld_pt; all fresh terms times 4");
+    // ---- encode/decode identity
+    run.family(
+        "encode_decode",
+        "element type x slots m x (base2k, log_delta, log_budget) x vector pattern (units, all-ones, alternating, unit circle, extremes near the magnitude limit); three checks per case",
+        enc_cases(run.tier),
+        enc_dispatch,
+    );
+    // ---- program search
+    let worst = Mutex::new(BTreeMap::new());
+    let mut summary = vec![];
+    for cfg in configs(run.tier) {
+        let o = dispatch_search(run, &cfg, "", &worst);
+        run.states += o.states;
+        run.transitions += o.transitions;
+        run.traces_validated += o.validated;
+        summary.push(json!({"cfg": cfg.name, "depth": cfg.depth, "states": o.states, "transitions": o.transitions,
+            "validated": o.validated, "completed": o.completed, "layers": o.layers}));
+        // determinism: re-run one layer less and compare the shared layers (counts and key hashes)
+        if o.completed && cfg.depth >= 2 && run.only.is_none() {
+            let mut c2 = cfg.clone();
+            c2.depth = (cfg.depth - 1).min(3);
+            let o2 = dispatch_search(run, &c2, "/rerun", &worst);
+            let same = o2.layers.iter().zip(o.layers.iter()).all(|(x, y)| x == y);
+            let name = format!("determinism/{}", cfg.name);
+            run.single(&name, "layers of a second run (depth min(d-1,3)) equal those of the first: frontier, transitions, new states, key hash", |rec| {
+                rec.evals(1);
+                if !same {
+                    rec.fail(json!({"op": "search", "backend": cfg.backend, "kind": "nondeterministic", "case": {"cfg": cfg.name},
+                        "inner": {"first": o.layers, "second": o2.layers}}));
+                }
+            });
+        }
+    }
+    run.note("search_summary", json!(summary));
+    let w: BTreeMap<String, f64> = worst.into_inner().unwrap();
+    run.note("worst_error_over_tolerance_per_op", json!(w));
+    run.note("ring", json!({"n": 16, "slots": 8, "note": "smallest ring on which all menu operations are defined on both backend families"}));
+}
+
+fn replay_on<B: Cb, F: Real>(run: &mut Run, cfg: &SearchCfg, init: usize, trace: &[Action])
+where
+    Module<B>: HalAll<B> + CoreAll<B> + CkksAll<B>,
+    Scratch<B>: ScratchTakeCore<B> + ScratchAvailable,
+{
+    let cx = Ctx::<B, F>::new(&cfg.params, run.seed);
+    let fc = FailCtl::new(1000);
+    let local = std::cell::RefCell::new(Local::default());
+    let seed = run.seed;
+    run.single("replay", "re-executes the recorded trace with every check", |rec| {
+        let mut st = blank_state(&cx);
+        let mut scr = Scr::new(cx.scratch_bytes);
+        let env = StepEnv {
+            cfg,
+            init,
+            seed,
+            fc: &fc,
+            local: &local,
+        };
+        for (d, a) in trace.iter().enumerate() {
+            rec.evals(1);
+            for s in sources(a) {
+                if st.regs[s as usize].blank {
+                    panic!("replay: action {a:?} reads blank register {s}");
+                }
+            }
+            let so = step(&cx, &st, a, d, &mut scr, rec, &env);
+            eprintln!(
+                "[C16] replay step {d}: {a:?} -> {}",
+                match &so.changed {
+                    Some(ch) => format!("ok {}", ch.iter().map(|(i, r)| format!("r{i}={}", r.describe())).collect::<Vec<_>>().join(" ")),
+                    None => "no successor (error value or violation)".into(),
+                }
+            );
+            match so.changed {
+                Some(ch) => st = succ_state(&st, a, ch),
+                None => break,
+            }
+        }
+    });
+}
+
+pub fn replay(run: &mut Run, d: &Value) {
+    if d["op"].as_str() == Some("encode_decode") {
+        let c: EncCase = serde_json::from_value(d["case"].clone()).expect("replay: bad encode_decode case");
+        run.single("encode_decode", "replay", |rec| enc_dispatch(&c, rec));
+        return;
+    }
+    let name = d["case"]["cfg"].as_str().expect("replay: case.cfg").to_string();
+    let init = d["case"]["init"].as_u64().unwrap_or(0) as usize;
+    let trace: Vec<Action> = serde_json::from_value(d["case"]["trace"].clone()).expect("replay: case.trace");
+    let cfg = configs(Tier::Quick)
+        .into_iter()
+        .chain(configs(Tier::Thorough))
+        .find(|c| c.name == name)
+        .unwrap_or_else(|| panic!("replay: unknown configuration {name}"));
+    match (cfg.backend.as_str(), cfg.elem.as_str()) {
+        ("fft64-ref", "f64") => replay_on::<FFT64Ref, f64>(run, &cfg, init, &trace),
+        ("ntt120-ref", "f64") => replay_on::<NTT120Ref, f64>(run, &cfg, init, &trace),
+        ("ntt120-ref", "f128") => replay_on::<NTT120Ref, f128::f128>(run, &cfg, init, &trace),
+        ("fft64-avx", "f64") => replay_on::<FFT64Avx, f64>(run, &cfg, init, &trace),
+        (b, e) => panic!("unsupported backend/element combination {b}/{e}"),
+    }
+}
+
+#[allow(dead_code)]
+fn _unused(_: &CKKSCiphertext<Vec<u8>>) {}
